@@ -45,6 +45,10 @@ class GenA:
         self.texts = []     # (ref, kind)
         self.pairs = []     # (ref, (nf, nf))
         self.blobs = []     # (ref, kind, nf)
+        self.group_counter = 0
+        self.unit_symbol = {n: (d["symbols"][0] if d.get("symbols") else None)
+                            for n, d in snapshot["units"].items() if not d.get("half_built")}
+        self.prefix_symbol = {n: v[2] for n, v in snapshot["prefixes"].items()}
         self.token_ref = {}  # synthetic base-unit token -> ref of its defining op
         self.restarted = False
         self.shipped_units = sorted(self.model.unit_names)
@@ -140,6 +144,7 @@ class GenA:
         ref = self.emit({"op": "define_unit", "dim": dref, "name": name, "symbol": name})
         nf = self.model.define_unit(name, name, md)
         self.token_ref[name] = ref
+        self.unit_symbol[name] = name
         self.units.append((ref, nf))
 
     def g_derive(self):
@@ -752,6 +757,198 @@ class GenA:
             else:
                 self.qtys.append((ref, mx))
 
+
+    # ------------------------------------------------------------------ C13
+    SYMBOL_RE = None
+
+    def symbol_ok(self, text):
+        import re
+
+        if GenA.SYMBOL_RE is None:
+            GenA.SYMBOL_RE = re.compile("^[1a-zA-Z\u00c5\u2090-\u209c\u0391-\u03c9\u2609.\u00b0()\\-]+$")
+        return bool(text) and bool(GenA.SYMBOL_RE.match(text))
+
+    def model_resolve(self, text):
+        """The library's documented resolution order over the model's symbol tables."""
+        if text in self.model.unit_symbols:
+            return self.model.unit_symbols[text]
+        for i in range(1, len(text)):
+            p = self.model.prefix_symbols.get(text[:i])
+            u = self.model.unit_symbols.get(text[i:])
+            if p is not None and u is not None and text[:i]:
+                return M.u_with_prefix(p, u)
+        if text in self.model.unit_names:
+            return self.model.unit_names[text]
+        return None
+
+    def c13_terms(self):
+        rng = self.rng
+        names = [n for n in self.shipped_units if self.unit_symbol.get(n)] + \
+            [n for n in self.token_ref if n in self.model.unit_names]
+        if not names:
+            return None
+        terms = []
+        for _ in range(rng.choice([1, 1, 1, 2, 2, 3])):
+            n = rng.choice(names)
+            r = rng.random()
+            pn = ""
+            if r < 0.6 and self.shipped_prefixes:
+                pn = rng.choice(self.shipped_prefixes)
+            e = rng.choice([1, 1, 1, 2, 3, -1, -1, -2, -3, 4, -4, 12])
+            if any(t[1] == n for t in terms):
+                continue
+            terms.append((pn, n, e))
+        return terms or None
+
+    def g_c13(self):
+        rng = self.rng
+        terms = self.c13_terms()
+        if terms is None:
+            return
+        # build the unit, in a seeded multiplication order
+        parts = []
+        nf = M.ONE
+        for pn, n, e in terms:
+            ref = self.token_ref.get(n) or ["u", n]
+            m = self.model.unit_names[n]
+            if pn:
+                ref = self.emit({"op": "p_mul_u", "p": ["p", pn], "u": ref, "right": rng.random() < 0.3})
+                m = M.u_with_prefix(self.model.prefix_names[pn], m)
+            if e != 1:
+                ref = self.emit({"op": "u_pow", "a": ref, "n": e})
+                m = M.u_pow(m, e)
+            parts.append((ref, m))
+            nf = M.u_mul(nf, m)
+        if not self.size_ok(nf):
+            return
+        order = list(range(len(parts)))
+        rng.shuffle(order)
+        ref, cur = parts[order[0]]
+        for i in order[1:]:
+            cur = M.u_mul(cur, parts[i][1])
+            ref = self.emit({"op": "u_mul", "a": ref, "b": parts[i][0]})
+        self.units.append((ref, nf))
+        r = rng.random()
+        if r < 0.7:
+            t = self.emit({"op": "render", "x": ref, "kind": "unit", "how": "str"})
+            self.texts.append((t, "unit"))
+            if rng.random() < 0.7:
+                self.emit({"op": "parse", "text": t, "kind": "unit"})
+        else:
+            q = self.emit({"op": "q_new", "m": self.magnitude() if rng.random() < 0.7 else
+                           ["float", repr(rng.choice([9.0, 13.0, 18.0, 26.0, 0.009, 1.1e-7, 123456.789]))],
+                           "u": ref, "how": "mul"})
+            self.qtys.append((q, nf))
+            t = self.emit({"op": "render", "x": q, "kind": "qty", "how": "str"})
+            self.texts.append((t, "qty"))
+            if rng.random() < 0.8:
+                self.emit({"op": "parse", "text": t, "kind": "qty"})
+        if rng.random() < 0.5:
+            self.spellings(terms, nf)
+
+    def spellings(self, terms, nf):
+        rng = self.rng
+        SUP = {"-": "\u207b", "0": "\u2070", "1": "\u00b9", "2": "\u00b2", "3": "\u00b3", "4": "\u2074",
+               "5": "\u2075", "6": "\u2076", "7": "\u2077", "8": "\u2078", "9": "\u2079"}
+        texts = []
+        amb = False
+        for pn, n, e in terms:
+            sym = self.unit_symbol.get(n)
+            psym = self.prefix_symbol.get(pn, "") if pn else ""
+            if sym is None or (pn and not psym):
+                return
+            t = psym + sym
+            intended = M.u_with_prefix(self.model.prefix_names[pn], self.model.unit_names[n]) if pn \
+                else self.model.unit_names[n]
+            if not self.symbol_ok(t):
+                return
+            if self.model_resolve(t) != intended:
+                amb = True
+            texts.append((t, e, n, pn))
+        self.group_counter += 1
+        g = self.group_counter
+
+        def term_text(t, e, style):
+            if e == 1:
+                return t
+            if style == "caret":
+                return "%s^%d" % (t, e)
+            return t + "".join(SUP[c] for c in str(e))
+
+        variants = []
+        for style in ("caret", "super"):
+            for sep in ("*", "\u22c5", " ", " * ", " \u22c5 "):
+                variants.append(("neg-exp/%s/%r" % (style, sep),
+                                 sep.join(term_text(t, e, style) for t, e, _, _ in texts)))
+            num = [(t, e) for t, e, _, _ in texts if e > 0]
+            den = [(t, -e) for t, e, _, _ in texts if e < 0]
+            if num and den:
+                for sep in ("*", "\u22c5", " "):
+                    variants.append(("ratio/%s/%r" % (style, sep),
+                                     sep.join(term_text(t, e, style) for t, e in num) + rng.choice(["/", " / "]) +
+                                     sep.join(term_text(t, e, style) for t, e in den)))
+        # registered names instead of symbols (unprefixed terms only)
+        if all(not pn for _, _, _, pn in texts) and all(self.symbol_ok(n) for _, _, n, _ in texts):
+            named_amb = any(self.model_resolve(n) != self.model.unit_names[n] for _, _, n, _ in texts)
+            if not named_amb:
+                variants.append(("names", " * ".join(term_text(n, e, "caret") for _, e, n, _ in texts)))
+        rng.shuffle(variants)
+        # reorder-independent: every variant keeps the term order, so all denote nf
+        for name, text in variants[: rng.choice([2, 3, 4, 6])]:
+            self.emit({"op": "parse", "literal": text, "kind": "unit", "group": g, "variant": name.split("/")[0],
+                       "nf": M.nf_json(nf), "ambiguous": amb})
+
+    def g_adversarial_symbol(self):
+        """Define a unit whose symbol is <prefix symbol><existing unit symbol>."""
+        rng = self.rng
+        if not self.shipped_prefixes:
+            return
+        self._adversarial_followups = []
+        self._adversarial_define()
+        for (uref, pn) in self._adversarial_followups:
+            n = uref[1]
+            r1 = self.emit({"op": "p_mul_u", "p": ["p", pn], "u": ["u", n]})
+            nf = M.u_with_prefix(self.model.prefix_names[pn], self.model.unit_names[n])
+            self.units.append((r1, nf))
+            t = self.emit({"op": "render", "x": r1, "kind": "unit", "how": "str"})
+            self.texts.append((t, "unit"))
+            self.emit({"op": "parse", "text": t, "kind": "unit"})
+
+    def _adversarial_define(self):
+        rng = self.rng
+        for _ in range(10):
+            pn = rng.choice(self.shipped_prefixes)
+            n = rng.choice(self.shipped_units)
+            ps, us = self.prefix_symbol.get(pn), self.unit_symbol.get(n)
+            if not ps or not us:
+                continue
+            sym = ps + us
+            if sym in self.taken_symbols or not self.symbol_ok(sym):
+                continue
+            dref, md = self.any_dim()
+            name = self.fresh_name()
+            # afterwards: the prefixed unit whose rendering now collides is rendered and parsed
+            follow = [("u", n), pn]
+            self._adversarial_followups.append(follow)
+            if rng.random() < 0.4 and sym not in self.taken_names:
+                # the colliding text is the *name* (names are resolved last: the prefixed
+                # reading must keep winning)
+                fresh_sym = name
+                self.taken_names.add(sym)
+                ref = self.emit({"op": "dim_unit", "dim": dref, "name": sym, "symbol": fresh_sym})
+                self.token_ref[sym] = ref
+                nfu = self.model.define_unit(sym, fresh_sym, md)
+                self.unit_symbol[sym] = fresh_sym
+                self.units.append((ref, nfu))
+                return
+            self.taken_symbols.add(sym)
+            ref = self.emit({"op": "dim_unit", "dim": dref, "name": name, "symbol": sym})
+            self.token_ref[name] = ref
+            nfu = self.model.define_unit(name, sym, md)
+            self.unit_symbol[name] = sym
+            self.units.append((ref, nfu))
+            return
+
     # --------------------------------------------------------- assembly
     WEIGHTS = {
         "C01": {
@@ -766,6 +963,10 @@ class GenA:
             "p_mul_u": 5, "as_ratio": 3, "render": 2, "parse": 2, "q_new": 2, "q_bin": 3, "q_unit": 2,
             "q_pow": 2, "quantify": 2, "unprefixed": 1, "q_unit_of": 2, "convert": 1, "roundtrip": 3,
             "evict": 4, "import": 1, "d_ops": 3, "p_ops": 4, "dump": 2, "load": 2, "restart": 1,
+        },
+        "C13": {
+            "c13": 30, "parse": 10, "adversarial_symbol": 3, "define_unit": 2, "decl_alias": 2, "derive": 2,
+            "import": 3, "evict": 1, "u_mul": 3, "render": 4, "q_new": 2, "as_ratio": 1,
         },
         "C15": {
             "roundtrip": 22, "dump": 10, "load": 8, "restart": 3, "twins": 4, "define_unit": 4, "derive": 3, "decl_alias": 3,
